@@ -79,6 +79,16 @@ CLAIMED.update({
    note="Hierarchy cube-split over the fixtures; hierarchical references as atoms over the path table.", design_ref="§4 C11"),
 })
 
+_LEM = "bounded symbolic execution of the real transformation kernels as single steps from arbitrary well-formed states + z3 (step lemmas)"
+CLAIMED.update({
+ "C08": dict(engine="E1", technique=_LEM,
+   text="Lemma level, bounded: _is_unique agrees with its declarative reading on every state of the universe; _make_instance_unique as one step gives the instance a private fresh copy with exact reference-set bookkeeping and unchanged connections. The whole uniquify run (driver loop, elaborated-design equality, idempotence) is NOT decided; stated in DESIGN section 9.",
+   note="Shape-concrete library for the step; links symbolic. Trusted as elsewhere.", design_ref="§4 C08, §9"),
+ "C09": dict(engine="E1", technique=_LEM,
+   text="Lemma level, bounded: the connection-merging kernel _redo_connections, from an arbitrary well-formed net-local state with symbolic connections, merges the inner net of a port pin into the outer net including pins of other ports on the same inner net (feed-through), handles unconnected sides, and keeps the netlist well-formed. The whole flatten run is NOT decided (attempted; z3 did not terminate); stated in DESIGN section 9.",
+   note="One-pin ports; shape-concrete cell.", design_ref="§4 C09, §9"),
+})
+
 NA_REASON = "check not built yet in this round (see DESIGN.md §7 build order); no claim is made"
 
 def main():
